@@ -347,14 +347,29 @@ Theorem call_once_code_shape : forall o mx body kont,
         | LkPoisoned => Panic
         | _ => atomic_b (once_test_block o)
                  (fun done => if done then mutex_unlock_code mx kont
-                              else body (atomic_u (fun e st => once_complete e st o) (mutex_unlock_code mx kont)))
+                              else body (Switch (atomic_u (fun e st => once_complete e st o) (mutex_unlock_code mx kont))))
         end)).
 Proof. reflexivity. Qed.
 
+(* The winner's tail, block by block (after the repair of once.rs): the initializer's code, then a
+   scheduling point, then once_complete (flag := true and state := Complete in ONE block), then the
+   scheduling point of the guard's release, the release block, the continuation.  Between the end of
+   the initializer and once_complete other tasks may run: they find the state Running and the inner
+   mutex held, exactly as while the initializer runs. *)
+Theorem call_once_winner_tail_shape : forall o mx kont,
+  Switch (atomic_u (fun e st => once_complete e st o) (mutex_unlock_code mx kont)) =
+  Switch (atomic_u (fun e st => once_complete e st o) (Switch (atomic_u (mutex_release_block mx) kont))).
+Proof. reflexivity. Qed.
+
 (* ---- the transition system ---- *)
-(* Ghost: where the current holder of the inner mutex is in call_once (it has just acquired the lock,
-   it runs the initializer, it is about to release), and whether some task has already found the flag
-   false under the lock. *)
+(* Ghost: where the current holder of the inner mutex is in call_once (PhAcq: it has just acquired the
+   lock; PhInit: it found the flag false - it runs the initializer, or has finished it and stands at
+   the scheduling point before once_complete; PhDone: it is about to release), and whether some task
+   has already found the flag false under the lock.
+   Every block is a separate step and any steps of other tasks (OEnter, failed acquisitions = OEnv,
+   ...) may occur between two steps of one call_once, so the scheduling point that the repaired
+   once.rs has between the initializer and once_complete needs no new step: it is one more place
+   where the holder stays in PhInit while the others move. *)
 Inductive hphase := PhAcq | PhInit | PhDone.
 Record ostate := mkO { o_e : exec; o_s : store; o_phase : hphase; o_started : bool }.
 
@@ -653,6 +668,25 @@ Proof.
   - destruct Heff as (_ & E2 & _). exact E2.
   - destruct Heff as (_ & E2 & _). congruence.
   - destruct Heff as (_ & E2 & _). congruence.
+Qed.
+
+(* the window between the flag test that answered false and once_complete (initializer running, or
+   finished and waiting at the new scheduling point): the flag is still false, the state is not
+   Complete, the mutex is held - so a call_once arriving now must take the lock (and waits), and
+   is_completed answers false *)
+Theorem once_init_window : forall o mx s,
+  OnceInv o mx s -> held mx s -> o_phase s = PhInit ->
+  once_fl o s = false /\ is_complete (once_st o s) = false /\
+  (forall e' st' t need, me (o_e s) = Some t -> once_enter (o_e s) (o_s s) o = Some (e', st', need) -> need = true) /\
+  (forall e' st' p, mutex_set_holder (o_e s) (o_s s) mx = Some (e', st', p) -> False).
+Proof.
+  intros o mx [e st ph sd] [(st0 & flag & Hobj) _ Hfl Hin _ _ _] Hheld Hph. cbn [o_e o_s o_phase] in *.
+  destruct (Hin Hheld Hph) as (Hf & _). split; [exact Hf|]. split; [rewrite <- Hfl; exact Hf|]. split.
+  - intros e' st' t need _ He. destruct (once_enter_spec _ _ _ _ _ _ He) as (m & s0 & fl & mx0 & _ & Hobj0 & Hcase).
+    destruct (once_fields_eq o e st ph sd _ _ _ Hobj0) as (E1 & E2).
+    rewrite E1, E2 in *. destruct s0 as [| |c]; [tauto|tauto|]. cbn [is_complete] in Hfl. congruence.
+  - intros e' st' p Ha. destruct (mutex_set_holder_spec _ _ _ _ _ _ Ha) as (m & sm & _ & _ & Hg & _).
+    apply Hheld. unfold mx_holder; cbn [o_s]; rewrite Hg; reflexivity.
 Qed.
 
 (* the lock really excludes: the flag is tested, and the initializer run, only by the holder, and the
